@@ -144,8 +144,9 @@ func newSynthWorld(group string, n, t int, rng *vh.Rng) (*world, error) {
 		w.pubs = append(w.pubs, w.suite.Point().Mul(s, nil))
 	}
 	pick := func() kyber.Scalar { return w.suite.Scalar().Pick(w.suite.RandomStream()) }
-	w.long = synthSharing(w.suite, pick(), t, n)
-	w.rnd = synthSharing(w.suite, pick(), t, n)
+	w.a, w.r = pick(), pick()
+	w.long = synthSharing(w.suite, w.a, t, n)
+	w.rnd = synthSharing(w.suite, w.r, t, n)
 	w.rndOther = synthSharing(w.suite, pick(), t, n)
 	w.msg = rng.Bytes(rng.Intn(40))
 	w.otherMsg = append(append([]byte{}, w.msg...), 0x21)
@@ -165,13 +166,15 @@ func (w *world) finish() error {
 		ls = append(ls, w.long[i].PriShare())
 		rs = append(rs, w.rnd[i].PriShare())
 	}
-	a, err := share.RecoverSecret(w.suite, ls, uint32(t), uint32(n))
-	if err != nil {
-		return err
-	}
-	r, err := share.RecoverSecret(w.suite, rs, uint32(t), uint32(n))
-	if err != nil {
-		return err
+	a, r := w.a, w.r // known when the sharings were built from polynomials by the harness
+	if a == nil || r == nil {
+		var err error
+		if a, err = share.RecoverSecret(w.suite, ls, uint32(t), uint32(n)); err != nil {
+			return err
+		}
+		if r, err = share.RecoverSecret(w.suite, rs, uint32(t), uint32(n)); err != nil {
+			return err
+		}
 	}
 	A, R := w.long[0].Commitments()[0], w.rnd[0].Commitments()[0]
 	if !A.Equal(w.suite.Point().Mul(a, nil)) || !R.Equal(w.suite.Point().Mul(r, nil)) {
@@ -1080,7 +1083,10 @@ func (g *gen) large(w *world, rng *vh.Rng) {
 		g.one(w, c, h, map[string]interface{}{"signers": name, "large": true})
 	}
 	if n > 64 {
-		hot := []int{63, 64, 65, n - 1}
+		hot := []int{63, 64, 65}
+		if n-1 > 65 {
+			hot = append(hot, n-1)
+		}
 		// (a) only the four signers around the word boundary, each delivered many times: never enough
 		{
 			c := 0
